@@ -134,7 +134,7 @@ def check_history(ctx, HTS, adds, query_hosts):
                     got = t.match(u)
                     ctx.ev()
                     if got is not want:
-                        ctx.viol("C09:match-%s-%s" % ("false-negative" if want else "false-positive", form), wit,
+                        ctx.viol("C09:match-%s-%s" % ("false-negative" if want else "false-positive", form), dict(wit, query_host=sp),
                                  {"query": u if isinstance(u, str) else list(u), "got": got, "want": want})
     except Exception as e:
         ctx.viol("C09:exception:" + ctx.exc("HostnameTrieSet.query", e), wit)
@@ -280,6 +280,9 @@ def replay(ctx, witness):
         for a in list(qs):
             qs.add("x." + a)
             qs.add("x" + a)
-        check_history(ctx, HTS, adds, [(q, [q, q.upper()]) for q in sorted(qs)])
+        queries = [(q, [q, q.upper()]) for q in sorted(qs)]
+        for raw in DIRECTED_Q + ([witness["query_host"]] if witness.get("query_host") else []):
+            queries.append((canon(raw), [raw]))  # the spelling as written (punycode, case) matters
+        check_history(ctx, HTS, adds, queries)
     finally:
         pr.stop()
